@@ -148,6 +148,12 @@ OutRefOK(o) ==
      /\ \A i \in C : (nodes[i].gen \in {"", "note"} /\ nodes[i].refs # <<>>) => Last(tgt) \in ToSet(nodes[i].refs)
 C03Env == /\ Check("no_residual_reference", Ev.residual = 0)
           /\ Check("emitted_paths_reach_referenced_nodes", \A k \in 1..Len(Ev.outrefs) : OutRefOK(Ev.outrefs[k]))
+          \* the same rule as for the hooked substitutions, read from the output alone: a path to a node whose innermost repeat
+          \* also encloses the node the expression belongs to is relative (outside indexed-repeat() arguments)
+          /\ Check("emitted_paths_relative_inside_shared_repeat",
+                   \A k \in 1..Len(Ev.outrefs) :
+                      LET o == Ev.outrefs[k] IN
+                      (o.e.inst = "" /\ ~o.in_ir /\ (o.e.abs \/ o.e.up <= Len(o.ctx)) /\ MustBeRelative(nodes, o.ctx, Resolve(o.ctx, o.e))) => ~o.e.abs)
           /\ Check("every_source_reference_substituted",
                    \A i \in 1..Len(nodes) : \A k \in 1..Len(nodes[i].refs) :
                       \E j \in 2..(l - 1) : T[j].ev = "ref" /\ T[j].name = nodes[i].refs[k])
